@@ -15,6 +15,8 @@ sys.path.insert(0, os.path.dirname(os.path.abspath(__file__)))
 import common  # noqa: E402
 from common import VERIF, jsonable  # noqa: E402
 
+XCHECK = (0, [])
+
 TRUSTED_BASE = [
     "Coq 8.16.1 kernel (coqc, full .vo build; vm_compute only inside Example/_refuted witnesses; no native_compute)",
     "extraction: stdlib ExtrOcamlBasic + ExtrOcamlZBigInt directives only (positive/Z/N -> zarith big integers); no Extract directive of ours",
@@ -51,6 +53,12 @@ def evaluate(mod, cases):
         spans.append((len(reqs), len(r)))
         reqs.extend(r)
     answers = common.run_model(reqs)
+    global XCHECK
+    try:
+        import xcheck
+        XCHECK = xcheck.cross_check(reqs, answers) if os.environ.get('VERIF_XCHECK', '1') != '0' else (0, [])
+    except Exception as e:
+        XCHECK = (0, ['extraction cross-check crashed: %r' % (e,)])
     out = []
     for c, im, (s, n) in zip(cases, impls, spans):
         mo = answers[s:s + n]
@@ -111,6 +119,10 @@ def main():
             fails.append((c, im, mo, v))
         elif v.get('disagree'):
             disagrees.append((c, im, mo, v))
+
+    if XCHECK[1] and results:
+        c0, im0, mo0, v0 = results[0]
+        disagrees.append((dict(note='extraction cross-check'), None, None, dict(disagree=XCHECK[1])))
 
     for kid, cs in known_hit.items():
         k = next(k for k in known if k['id'] == kid)
@@ -175,7 +187,7 @@ def main():
             evaluations=sum(int(v.get('evals', 1)) for (_c, _i, _m, v) in results), cases=len(results), distinct_nontrivial=len(nontriv),
             rule=getattr(mod, 'RULE', ''), exhaustive=bool(getattr(mod, 'EXHAUSTIVE', {}).get(tier, False)),
             traces_validated_against_impl=len(results), corpus_cases=ncorpus,
-            disagreements=len(disagrees), property_failures=len(fails), known_finding_cases=sum(len(v) for v in known_hit.values()),
+            extraction_cross_checked=XCHECK[0], disagreements=len(disagrees), property_failures=len(fails), known_finding_cases=sum(len(v) for v in known_hit.values()),
             distribution=dist, samples=samples or [dict(note='no case was run (build failed)')]),
         assumptions=getattr(mod, 'ASSUMPTIONS', []))
     os.makedirs(os.path.join(VERIF, 'evidence'), exist_ok=True)
